@@ -319,7 +319,9 @@ def suite_pair(p, rng, cap=450):
         pairs = [pairs[min(len(pairs) - 1, int(i * step) + off)] for i in range(cap)]
     out = []
     for i, (a, b) in enumerate(pairs):
-        out.append(case("q%d" % i, p, [['new']] + M[a] + M[b]))
+        # the idle-delay setting cycles through the four classes (it changes nothing for the observer except the
+        # shape of a reset pulse whose settle time is derived from it)
+        out.append(case("q%d" % i, p, [['new']] + M[a] + M[b], delay=['none', '0', '1', '250'][i % 4]))
     return out
 
 def suite(p, name, rng):
